@@ -15,6 +15,14 @@ TABLE = {
    text='online-generated operation histories against real Server/AsyncServer objects; every emit carries a unique token and its recipient multiset, read off the real engine.io socket queues with an independent decoder, must equal the rooms reference model; rooms() compared after every operation',
    note='sequential executions; room names truthy non-sequence hashables; operations on a client\'s own personal room are not generated (statement ambiguous there)',
    tech='runtime monitoring: history + executable reference model (rooms as sets), unique tokens, multiset equality'),
+ 'C05': dict(cat='exploration',
+   text='generated histories of EVENT/BINARY_EVENT packets with colliding ids from several clients and namespaces against real Server/AsyncServer; each event carries a unique token; handler invocations (who, sid, args) and ACKs (id, namespace, payload, recipient transport) are accounted for exactly; bursts with pausing handlers check strict arrival order when async_handlers is off',
+   note='background handler threads/tasks are joined before judging; client frames produced by the reference codec; engine.io delivers frames in order (trusted)',
+   tech='runtime monitoring: token-matched exactly-once accounting over recorded handler/ACK events'),
+ 'C06': dict(cat='exploration',
+   text='generated histories mixing emit-with-callback/call() with ACKs carrying correct, duplicate, never-issued, zero and foreign ids, disconnects and reconnects; an ack model (outstanding ids per session id) decides which callback may fire; call() is driven through scripted orders of ACK / timeout / disconnect / loss on virtual time',
+   note='timeouts are observed at the wait primitive (VirtualEvent) or on a virtual asyncio clock, never wall clock; multi-recipient callbacks excluded as documented',
+   tech='runtime monitoring: history + executable ack model, escape monitor, virtual time'),
 }
 # filled in as checks are built; see bottom of file for the not-built reason
 
